@@ -13,7 +13,7 @@ from . import common, grammar_cfgs
 from .common import log
 
 EXE = "pvh_grammar"
-FOCI = ["decls", "loose", "types", "flat", "nest", "exprs", "ops", "lists", "commas", "args", "conds", "casts", "elseif", "steps", "long", "strings", "atoms", "undoc", "fields"]
+FOCI = ["decls", "loose", "types", "flat", "nest", "exprs", "ops", "lists", "commas", "args", "conds", "casts", "elseif", "steps", "long", "strings", "longstr", "atoms", "undoc", "fields"]
 # foci that derive forms the documents do not show (generation 1 accepts them): rejection by generation 2 is not a
 # violation there, a crash or a wrong tree is.  (`loose` -- the last struct member without its comma -- is NOT among them:
 # tests/samples/valid/view_aliasing.pn is written that way.)
